@@ -1,6 +1,7 @@
 package main
 
 import (
+	"time"
 	"bufio"
 	"fmt"
 	"strings"
@@ -37,11 +38,23 @@ func replay(cw *caseWriter, path string) {
 		case 5:
 			c05exec(cw, tag, in)
 		case 6:
-			nsRun(cw, tag, in, c06monitor(cw))
+			nsRun(cw, tag, in, func(tag string, in, obs []uint64) {
+				c06monitor(cw)(tag, in, obs)
+				c04monitor(cw)(tag, in, obs)
+				c07nMonitor(cw)(tag, in, obs)
+			})
 		case 7:
 			c07exec(cw, tag, in, true)
 		case 11:
 			c11exec(cw, tag, in)
+		case 14:
+			c14replay(cw, tag, in)
+		case 1001, 1002, 1003, 1004, 1005, 1006, 1007, 1008, 1009, 1010, 1011, 1012:
+			res := runScenario(int(in[0]), in[1])
+			cw.emit(tag, comp, in, []uint64{uint64(res.events), uint64(res.leaders), uint64(res.acks), uint64(res.crashes), uint64(len(res.findings))}, true)
+			for _, f := range res.findings {
+				cw.monitor(f.prop, tag, f.sig, "%s", f.text)
+			}
 		default:
 			fmt.Fprintln(os.Stderr, "replay: unknown component", comp)
 		}
@@ -70,10 +83,26 @@ func main() {
 		runC06(cw, tier, seed)
 	case "c04":
 		runC04(cw, tier, seed)
+	case "c01":
+		runC01(cw, tier, seed)
+	case "c14":
+		runC14(cw, tier, seed)
 	case "c07":
 		runC07(cw, tier, seed)
 	case "c11":
 		runC11(cw, tier, seed)
+	case "dump":
+		r := &rng{s: seed}
+		c := scStaleGrants(r)
+		c.shutdown()
+		dumpHistory(c, 200)
+		fmt.Println(c.monitor())
+	case "demo":
+		t0 := time.Now()
+		runScenarios(cw, 1, seed, 100, 12)
+		runScenarios(cw, 2, seed, 100, 12)
+		runScenarios(cw, 3, seed, 40, 12)
+		fmt.Println("elapsed", time.Since(t0))
 	default:
 		fmt.Fprintln(os.Stderr, "unknown component", comp)
 		os.Exit(2)
